@@ -278,6 +278,9 @@ func runForced(nw, nops int, sched []int) fresult {
 	}
 	f.quiesce()
 	res.final = vigil.Count(v)
+	f.mu.Lock()
+	nlog := len(f.terms) // events after this point belong to the clean-up of hung waiters
+	f.mu.Unlock()
 	for _, t := range f.thrs {
 		if t.waiter && !t.done.Load() {
 			res.hung = append(res.hung, t.idx)
@@ -324,6 +327,7 @@ func runForced(nw, nops int, sched []int) fresult {
 	for i, h := range res.hung {
 		hung[i] = common.Nat(h)
 	}
+	f.terms, f.human = f.terms[:nlog], f.human[:nlog]
 	for _, tm := range f.terms {
 		if len(tm) > 7 && tm[:7] == "(OCheck" {
 			res.nontriv = true
